@@ -260,7 +260,13 @@ def h_history(k0: int, f0: int, c1: int, shard=None) -> None:
     k0, f0, c1 = realize(k0), realize(f0), realize(c1)
     tails = [(k, f) for k in shard.get("tail_kinds", list(range(N_KINDS))) for f in shard.get("tail_flags", list(range(12)))]
     with concrete():
-        for rest in itertools.product(tails, repeat=n - 1):
+        import random
+        from vf.xh import sweep_should_stop
+        rests = list(itertools.product(tails, repeat=n - 1))
+        random.Random(k0 * 1000 + f0 * 10 + n).shuffle(rests)      # a sweep cut short by the budget covers a spread of tails, not a prefix
+        for rest in rests:
+            if sweep_should_stop():
+                return
             seq = [(k0, f0)] + list(rest)
             steps = [(k, f // 4, bool((f // 2) % 2), bool(f % 2)) for k, f in seq]
             _run_history(steps, c1, 46, shard.get("adversarial_id", True))
